@@ -403,6 +403,28 @@ def conditioning(V, offset=None):
     return max(1.0, off / thin / 1000.0)
 
 
+def float32_probe(ctor, V):
+    """The same coordinate values given as a float32 array and as a float64 array are the same solid: its measures are evaluated in double
+    precision either way.  Returns a list of problems."""
+    import numpy as np
+    V32 = np.asarray(V, float).astype(np.float32)
+    V64 = V32.astype(np.float64)
+    try:
+        a, b = ctor(V32), ctor(V64)
+    except Exception:  # noqa: BLE001
+        return []
+    R = float(np.max(np.linalg.norm(V64, axis=1))) + 1e-300
+    probs = []
+    for n, k in (("volume", 3), ("surface_area", 2), ("centroid", 1), ("inertia_tensor", 5)):
+        try:
+            x, y = np.asarray(getattr(a, n), float), np.asarray(getattr(b, n), float)
+        except Exception:  # noqa: BLE001
+            continue
+        if x.shape != y.shape or not np.all(np.abs(x - y) <= 1e-10 * R ** k):
+            probs.append("%s of the solid built from a float32 array: %s, from the same values as float64: %s" % (n, np.ravel(x)[:6].tolist(), np.ravel(y)[:6].tolist()))
+    return probs
+
+
 def resize_probe(p, fresh):
     """The measures are asked for, the solid is resized (volume x 8) and they are asked for again: they must be the measures of the solid as
     it is NOW, i.e. those of a freshly constructed solid on the current vertices (fresh: callable building it).  Returns a list of
